@@ -20,11 +20,11 @@ THOROUGH_S = 420
 BATCH = 4
 RULE = ('one evaluation = one seeded single-client history (30-200 calls) of writes (set/add/incr, values 0.5-20 KB, mostly '
         'file-backed), reads that refresh recency/frequency, clock steps, expiring items and explicit cull() under size_limit in '
-        '100 KB-400 KB x policy in {least-recently-stored, least-recently-used, least-frequently-used, none} x cull_limit in '
+        '100 KB-400 KB (one shape in five: values of 30-70 % of the limit refreshed in turn below the limit) x policy in {least-recently-stored, least-recently-used, least-frequently-used, none} x cull_limit in '
         '{0,1,2,10}, on Cache and (per shard) on FanoutCache; after every call the physically removed rows are compared with what '
         'the policy permits; non-trivial = at least one size eviction or expired cull was observed; distinct = SHA-256 of '
         '(configuration, program)')
-ASSUMPTIONS = ['"reached the size limit" is decided black-box: volume() before the write + size of the new value + 8 database pages of slack >= size_limit',
+ASSUMPTIONS = ['"reached the size limit" is decided black-box: volume() before the write - size of the item it replaces + size of the new value + 8 database pages of slack >= size_limit',
                'policy keys (store time, access time, access count) are maintained by the model from the virtual clock readings; ties are accepted in any order']
 PROBES = ('evictions', 'cull_expired', 'cull_policy', 'at_limit_writes', 'fanout_runs')
 TECHNIQUE = 'deterministic simulation (virtual clock drives store/access times) + model-based judging of every observed removal set against the policy'
@@ -52,6 +52,10 @@ def gen_case(seed, tier):
             op = {'op': rng.choice(('set', 'set', 'set', 'add')), 'k': k, 'v': {'big': ['bytes', size, 'v%d' % i]}}
             if rng.random() < 0.2:
                 op['expire'] = rng.choice((1, 5, 30))
+        elif r < 0.53:
+            # a big value (a third of the limit and more) written to one of two keys again and again: each write replaces as
+            # much as it adds
+            op = {'op': 'set', 'k': 'bulky%d' % rng.randrange(2), 'v': {'big': ['bytes', int(settings['size_limit'] * rng.choice((0.3, 0.4))), 'B%d' % i]}}
         elif r < 0.56:
             op = {'op': 'set', 'k': 'ctr%d' % rng.randrange(3), 'v': rng.randrange(10)}
         elif r < 0.62:
@@ -103,6 +107,36 @@ def gen_case(seed, tier):
         block = live + pre + [{'op': 'advance', 'dt': 5}]
         block += [{'op': 'set', 'k': 9900 + j2, 'v': {'big': ['bytes', rng.choice((600, 2000)), 'w%d' % j2]}} for j2 in range(3)]
         prog = block + prog
+    elif rng.random() < 0.2:
+        # a cache that stays well below its limit while big values (30-40 % of it each) are refreshed in turn: every write
+        # replaces as much as it adds, so nothing may ever be evicted for size
+        limit = settings['size_limit']
+        prog = []
+        nb = rng.choice((1, 2))
+        for i in range(n // 2):
+            r = rng.random()
+            if r < 0.5:
+                wr = rng.choice(('set', 'set', 'add', 'incr_over'))
+                big = {'big': ['bytes', int(limit * rng.choice((0.3, 0.4, 0.45) if nb == 2 else (0.5, 0.7))), 'R%d' % i]}
+                k = 'bulky%d' % rng.randrange(nb)
+                if wr == 'set':
+                    prog.append({'op': 'set', 'k': k, 'v': big})
+                else:
+                    # add over an expired big item replaces it as well
+                    prog.append({'op': 'set', 'k': k, 'v': big, 'expire': 1})
+                    prog.append({'op': 'advance', 'dt': 2})
+                    if wr == 'add':
+                        prog.append({'op': 'add', 'k': k, 'v': {'big': ['bytes', big['big'][1], 'A%d' % i]}})
+                    else:
+                        prog.append({'op': 'incr', 'k': k})
+            elif r < 0.7:
+                prog.append({'op': 'set', 'k': rng.randrange(4), 'v': {'big': ['bytes', rng.choice((600, 2000)), 's%d' % i]}})
+            elif r < 0.9:
+                prog.append({'op': rng.choice(('get', 'read', 'contains')), 'k': rng.choice(('bulky0', 'bulky1', 0, 1, 2, 3))})
+            else:
+                prog.append({'op': 'advance', 'dt': rng.choice((0.001, 1))})
+            if rng.random() < 0.5:
+                prog.append({'op': 'advance', 'dt': 0.001})
     cfg = {'settings': settings, 'profile': 'evict', 'fanout': fanout, 'shards': rng.choice((2, 3, 8))}
     return {'seed': seed, 'cfg': cfg, 'prog': prog}
 
@@ -119,8 +153,14 @@ def at_limit(cache, model, op):
     if op['op'] not in ('set', 'setitem', 'add', 'incr', 'decr', 'push'):
         return None
     vol = cache.volume()
-    return {'vol': vol, 'upper': value_size_upper(op), 'slack': SLACK_PAGES * cache._page_size,
-            'maybe': vol + value_size_upper(op) + SLACK_PAGES * cache._page_size >= model.size_limit}
+    # a write that replaces an item gives that item's bytes back before it is measured against the limit
+    replaced = 0
+    if 'k' in op:
+        it = model._find(op['k'])[2]
+        if it is not None:
+            replaced = it.size or 0
+    return {'vol': vol, 'upper': value_size_upper(op), 'slack': SLACK_PAGES * cache._page_size, 'replaced': replaced,
+            'maybe': vol - replaced + value_size_upper(op) + SLACK_PAGES * cache._page_size >= model.size_limit}
 
 
 def run_case(case):
